@@ -201,7 +201,13 @@ ListCases == { Case(2, "right", "prevote", 0, <<P("prevote", "A"), P("prevote", 
                Case(2, "right", "prevote", 1, <<P("prevote", "A"), P("prevote", "B")>>),
                Case(2, "right", "prevote", -1, <<P("prevote", "A"), P("prevote", "B")>>),
                Case(3, "right", "prevote", 0, <<P("prevote", "B"), P("forged", "A")>>),
-               Case(2, "right", "prevote", 1, <<P("precommit", "A"), P("precommit", "B")>>) }
+               Case(2, "right", "prevote", 1, <<P("precommit", "A"), P("precommit", "B")>>),
+               \* decoys: bogus evidences that name a validator's index without proving anything against it; lists put them
+               \* before and after a genuine evidence against the same validator (and against another one)
+               Case(2, "right", "prevote", 0, <<P("prevote", "A"), P("forged", "B")>>),
+               Case(2, "right", "precommit", 0, <<P("garbage", "A"), P("garbage", "B")>>),
+               Case(1, "wrong", "prevote", 0, <<P("prevote", "A"), P("prevote", "B")>>),      \* v1's signatures, v2's index
+               Case(1, "right", "certificate", 0, <<P("certificate", "A"), P("otherkey", "B")>>) }
 
 Cases == IF Alphabet = "pairs" THEN PairCases \cup VaryCases ELSE ListCases
 
